@@ -82,7 +82,8 @@ theorem ctorNew_ok (dr : String → Bool) (cap : Nat) (s : Spec) (hwf : WFData c
       st.result = .record b ∧ b.cap = cap ∧ st.drops = [] ∧
       st.acc = s.data.map (fun d => ("write", d.offset, d.ty)) ∧
       (∀ p ∈ s.data.zip vals, b.find p.1 = some (Ext.mk p.1.offset p.1.size p.2 false)) ∧
-      (∀ e ∈ b.exts, ∃ p ∈ s.data.zip vals, e = Ext.mk p.1.offset p.1.size p.2 false) := by
+      (∀ e ∈ b.exts, ∃ p ∈ s.data.zip vals, e = Ext.mk p.1.offset p.1.size p.2 false) ∧
+      storeAll dr ⟨cap, []⟩ (s.data.zip vals) = .ok b := by
   obtain ⟨b, hs, hc, hfound, _, hexts⟩ := storeAll_ok dr (s.data.zip vals) ⟨cap, []⟩
     (fun w hw => ⟨hty w hw, hwf.inCap w.1 (List.of_mem_zip hw).1, freeFor_empty dr cap w.1, freshKey_empty cap w.1⟩)
     (zip_pairwise_apart hwf.apart)
@@ -95,7 +96,7 @@ theorem ctorNew_ok (dr : String → Bool) (cap : Nat) (s : Spec) (hwf : WFData c
         rw [List.mem_iff_getElem]; exact ⟨i, by simp [hl]; exact hi, by simp⟩
       exact ⟨_, lookup_fieldsOf s.data vals hwf.names _ hmem⟩)
     b (by rw [hws]; exact hs)
-  refine ⟨b, { args := [], data := none, result := .record b, acc := [] ++ s.data.map (fun d => ("write", d.offset, d.ty)) }, ?_, rfl, hc, rfl, by simp, hfound, ?_⟩
+  refine ⟨b, { args := [], data := none, result := .record b, acc := [] ++ s.data.map (fun d => ("write", d.offset, d.ty)) }, ?_, rfl, hc, rfl, by simp, hfound, ?_, hs⟩
   · unfold call ctorNew
     simp only
     rw [List.append_assoc, run_append]
@@ -328,6 +329,7 @@ theorem writes_ok (dr : String → Bool) (cap : Nat) (src : String) (ds : List D
       (∀ p ∈ ds.zip vals, b.find p.1 = some (Ext.mk p.1.offset p.1.size p.2 false)) ∧
       (∀ d', (∀ d ∈ ds, Apart d d') → b.find d' = b0.find d') ∧
       (∀ e ∈ b.exts, e ∈ b0.exts ∨ ∃ p ∈ ds.zip vals, e = Ext.mk p.1.offset p.1.size p.2 false) ∧
+      storeAll dr b0 (ds.zip vals) = .ok b ∧
       ∀ st : St, st.data = some b0 → st.args = [(src, fieldsOf ds vals)] →
         run dr cap (ds.map fun d => Stmt.write d src) st =
           .ok { st with data := some b, args := [(src, [])], acc := st.acc ++ ds.map fun d => ("write", d.offset, d.ty) } := by
@@ -335,7 +337,7 @@ theorem writes_ok (dr : String → Bool) (cap : Nat) (src : String) (ds : List D
     (fun w hw => ⟨hty w hw, by rw [hc0]; exact hwf.inCap w.1 (List.of_mem_zip hw).1,
       (hfree w.1 (List.of_mem_zip hw).1).1, (hfree w.1 (List.of_mem_zip hw).1).2⟩)
     (zip_pairwise_apart hwf.apart)
-  refine ⟨b, by rw [hc, hc0], hfound, ?_, hexts, ?_⟩
+  refine ⟨b, by rw [hc, hc0], hfound, ?_, hexts, hs, ?_⟩
   · intro d' hap
     apply hframe
     intro w hw
@@ -360,11 +362,12 @@ theorem ctorNewUninit_ok (dr : String → Bool) (cap : Nat) (s : Spec) (hwf : WF
     ∃ b st, call dr cap (ctorNewUninit s) { args := [("from", fieldsOf (s.data.filter (fun d => !d.uninit)) vals)] } = .ok st ∧
       st.result = .record b ∧ b.cap = cap ∧ st.drops = [] ∧
       (∀ p ∈ (s.data.filter (fun d => !d.uninit)).zip vals, b.find p.1 = some (Ext.mk p.1.offset p.1.size p.2 false)) ∧
-      (∀ e ∈ b.exts, ∃ p ∈ (s.data.filter (fun d => !d.uninit)).zip vals, e = Ext.mk p.1.offset p.1.size p.2 false) := by
-  obtain ⟨b, hc, hfound, _, hexts, hrun⟩ := writes_ok dr cap "from" (s.data.filter (fun d => !d.uninit)) (hwf.filter _) vals hl hty
+      (∀ e ∈ b.exts, ∃ p ∈ (s.data.filter (fun d => !d.uninit)).zip vals, e = Ext.mk p.1.offset p.1.size p.2 false) ∧
+      storeAll dr ⟨cap, []⟩ ((s.data.filter (fun d => !d.uninit)).zip vals) = .ok b := by
+  obtain ⟨b, hc, hfound, _, hexts, hsAll, hrun⟩ := writes_ok dr cap "from" (s.data.filter (fun d => !d.uninit)) (hwf.filter _) vals hl hty
     ⟨cap, []⟩ rfl (fun d _ => ⟨freeFor_empty dr cap d, freshKey_empty cap d⟩)
   refine ⟨b, { args := [], data := none, result := .record b,
-               acc := [] ++ (s.data.filter (fun d => !d.uninit)).map (fun d => ("write", d.offset, d.ty)) }, ?_, rfl, hc, rfl, hfound, ?_⟩
+               acc := [] ++ (s.data.filter (fun d => !d.uninit)).map (fun d => ("write", d.offset, d.ty)) }, ?_, rfl, hc, rfl, hfound, ?_, hsAll⟩
   · unfold call ctorNewUninit
     simp only
     by_cases hany : s.data.any (fun d => !d.uninit) = true
